@@ -24,6 +24,20 @@ pub proof fn lemma_eod_abort(pre: Seq<Result<EndOfDayResponse>>, a: packets::Par
     }
 }
 /// cancel (pre-authorisation reversal): an abort with code c is the error Aborted(c), never success
+/// a clean abort in the reply items of a reversal decides its outcome
+pub proof fn lemma_cancel_clean_abort(its: Seq<Result<PartialReversalResponse>>)
+    ensures pr_clean_abort(its, true) matches Some(c) ==> cancel_fold(its) == Result::<()>::Err(aborted(c)),
+    decreases its.len()
+{
+    if its.len() > 0 {
+        match its[0] {
+            Ok(PartialReversalResponse::PartialReversalAbort(a)) => {},
+            Ok(PartialReversalResponse::CompletionData(_)) => {},
+            Err(_) => {},
+            Ok(_) => { lemma_cancel_clean_abort(its.skip(1)); },
+        }
+    }
+}
 pub proof fn lemma_cancel_abort(pre: Seq<Result<PartialReversalResponse>>, a: packets::PartialReversalAbort, post: Seq<Result<PartialReversalResponse>>)
     requires forall|i: int| 0 <= i < pre.len() ==> pr_skippable(#[trigger] pre[i]),
     ensures cancel_fold(pre + seq![Ok(PartialReversalResponse::PartialReversalAbort(a))] + post) == Result::<()>::Err(aborted(a.error)),
